@@ -703,7 +703,7 @@ impl<W, R, T> CompilationScope<'_, W, R, T> {
                     .into_inner()
                 {
                     let expr = match part.as_rule() {
-                        Rule::expression => XStaticExpr::new_call_sym(
+                        Rule::f_expression => XStaticExpr::new_call_sym(
                             to_str_sym,
                             vec![self.parse_expr(part, interner)?],
                         ),
@@ -726,6 +726,7 @@ impl<W, R, T> CompilationScope<'_, W, R, T> {
                     vec![XStaticExpr::Array(parts)],
                 ))
             }
+            Rule::f_expression => self.parse_expr(input.into_inner().next().unwrap(), interner),
             Rule::bool => {
                 return Ok(XStaticExpr::LiteralBool(input.as_str() == "true"));
             }
